@@ -62,7 +62,7 @@ def ds_op(ctx, struct, op, dim, args=None, attrs_kept=True):
     elif op == 'take_axis_pos':
         idx = [ctx.choice('p0', n), ctx.choice('p1', n)]
         present = True
-    elif op == 'reindex_axis':
+    elif op in ('reindex_axis', 'reindex_axis-axisobj'):
         qs = [ctx.label(kind, 'q%d' % j) for j in range(args.get('k', 2))]
         present = True
         idx = list(qs)
@@ -81,6 +81,8 @@ def ds_op(ctx, struct, op, dim, args=None, attrs_kept=True):
         idx = None
         present = True
     pos = list(ds.dims).index(dim)
+    if op.endswith('-default') and pos != 0:
+        ctx.assume(False)
     full = [slice(None)] * len(ds.dims)
 
     def dsf():
@@ -101,6 +103,12 @@ def ds_op(ctx, struct, op, dim, args=None, attrs_kept=True):
             return ds.isel(**{dim: idx})
         if op in ('mean', 'std', 'var', 'median', 'sum'):
             return getattr(ds, op)(axis=dim)
+        if op in ('mean-pos', 'sum-pos', 'median-pos'):
+            return getattr(ds, op[:-4])(axis=pos)
+        if op in ('mean-default', 'sum-default'):
+            return getattr(ds, op[:-8])()
+        if op == 'reindex_axis-axisobj':
+            return ds.reindex_axis(ctx.da.Axis(ctx.nparray(idx, kind=kind), dim))
         if op == 'take_axis':
             return ds.take_axis(idx, axis=dim)
         if op == 'take_axis_pos':
@@ -120,6 +128,12 @@ def ds_op(ctx, struct, op, dim, args=None, attrs_kept=True):
             return v.take(idx, axis=dim, indexing='position')
         if op in ('mean', 'std', 'var', 'median', 'sum'):
             return getattr(v, op)(axis=dim)
+        if op in ('mean-pos', 'sum-pos', 'median-pos'):
+            return getattr(v, op[:-4])(axis=dim)
+        if op in ('mean-default', 'sum-default'):
+            return getattr(v, op[:-8])(axis=dim)
+        if op == 'reindex_axis-axisobj':
+            return v.reindex_axis(idx, axis=dim)
         if op == 'take_axis':
             return v.take_axis(idx, axis=dim)
         if op == 'take_axis_pos':
@@ -149,7 +163,7 @@ def ds_op(ctx, struct, op, dim, args=None, attrs_kept=True):
             oks.append(same_as(ctx, got, e[1]))
         else:
             oks.append(same(ctx, got, ref))
-    if attrs_kept and op not in ('mean', 'std', 'var', 'median', 'sum'):
+    if attrs_kept and op.split('-')[0] not in ('mean', 'std', 'var', 'median', 'sum'):
         oks.append(res.attrs.get('title') == 'T' and res.attrs.get('hist') == [1])
     # the operand dataset is untouched
     from props.C13 import state_eq
@@ -178,12 +192,21 @@ def ds_arith(ctx, struct, op, other):
     else:
         ds2 = ctx.da.Dataset()
         cells2 = {}
+        own = {}
         for i, (k, ref) in enumerate(st['vars'].items()):
             cells2[k] = ctx.cells('f', len(ref.cells), 'u%d_' % i)
             if op == 'div':
                 for c in cells2[k]:
                     ctx.assume(c != 0)
-            ds2[k] = ctx.mk(list(ref.dims), ref.labels, cells2[k], lkinds=[LK[DIMS.index(d)] for d in ref.dims], register=False)
+            ls = []
+            for d, l in zip(ref.dims, ref.labels):
+                if other == 'dataset-free' and d == 'x':      # the second dataset has its own labels along x
+                    if d not in own:
+                        own[d] = ctx.labels(LK[DIMS.index(d)], len(l), 'O%s_' % d)
+                    ls.append(own[d])
+                else:
+                    ls.append(l)
+            ds2[k] = ctx.mk(list(ref.dims), ls, cells2[k], lkinds=[LK[DIMS.index(d)] for d in ref.dims], register=False)
         r = ctx.call(lambda: f(ds, ds2))
         exp = dict((k, ctx.call(lambda: f(ds[k], ds2[k]))) for k in ds.keys())
     if r[0] != 'ok':
@@ -251,7 +274,8 @@ def templates():
         ts.append({'name': name, 'fn': fn, 'params': params, 'tier': tier, 'cost': cost})
     structs = ['a_x', 'a_xy', 'a_x-b_yx', 'a_xy-b_y-c_0', 'a_y-b_xz', 'a_xyz-b_zy-c_x']
     ops = ['take-scalar', 'take-list', 'take-dict', 'take-axisname', 'loc-scalar', 'loc-list', 'sel-scalar', 'ix-scalar', 'ix-list', 'isel-scalar',
-           'mean', 'std', 'var', 'median', 'sum', 'take_axis', 'take_axis_pos', 'sort_axis', 'reindex_axis', 'interp_axis']
+           'mean', 'std', 'var', 'median', 'sum', 'take_axis', 'take_axis_pos', 'sort_axis', 'reindex_axis', 'interp_axis',
+           'mean-pos', 'sum-pos', 'median-pos', 'mean-default', 'sum-default', 'reindex_axis-axisobj']
     for sname in structs:
         dims = []
         for _, ds_ in STRUCTS[sname]:
@@ -264,12 +288,14 @@ def templates():
                     continue
                 if op == 'interp_axis' and SIZES[dim] < 2:
                     continue
+                if op.endswith('-default') and dim != dims[0]:
+                    continue
                 quick = sname in ('a_x-b_yx', 'a_xy-b_y-c_0', 'a_y-b_xz') or op in ('take-scalar', 'mean', 'reindex_axis')
                 add('%s-%s-%s' % (op, sname, dim), 'ds_op', 'quick' if quick else 'thorough', cost=1.5, struct=sname, op=op, dim=dim)
     for sname in ('a_x', 'a_x-b_yx', 'a_xy-b_y-c_0'):
         for op in ('add', 'sub', 'mul', 'div'):
-            for other in ('scalar', 'rscalar', 'dataset'):
-                add('arith-%s-%s-%s' % (op, other, sname), 'ds_arith', cost=0.5, struct=sname, op=op, other=other)
+            for other in ('scalar', 'rscalar', 'dataset', 'dataset-free'):
+                add('arith-%s-%s-%s' % (op, other, sname), 'ds_arith', cost=0.5 if other != 'dataset-free' else 4, struct=sname, op=op, other=other)
     for sname in ('a_x', 'a_x-b_yx', 'a_xy-b_y-c_0'):
         add('stack_ds-%s' % sname, 'ds_join', cost=1, struct=sname, how='stack')
     for sname, dim in (('a_x', 'x'), ('a_x-b_yx', 'x'), ('a_xy', 'y'), ('a_xy-b_y-c_0', 'y'), ('a_xyz-b_zy-c_x', 'x')):
